@@ -8,6 +8,7 @@ package sim
 import (
 	"encoding/json"
 	"fmt"
+	"regexp"
 	"sort"
 	"strings"
 	gotime "time"
@@ -50,6 +51,13 @@ func init() {
 						Pick(r, users[:2]), Pick(r, users[:2]), Pick(r, keys), val, Pick(r, keys), val)}
 				default:
 					op = Op{Kind: KPostings, Postings: []PostingSpec{{"world", Pick(r, users[:2]), "1", "USD"}}, Metadata: map[string]string{Pick(r, keys): val}}
+					if r.Chance(0.4) {
+						// one request writing the metadata of one account from both sides: the script sets a key, the
+						// request's accountMetadata another (wave 15, C17d: the request's map replaced the script's)
+						a := Pick(r, users[:2])
+						op = Op{Kind: KScript, Script: fmt.Sprintf("send [USD 1] (\n  source = @world\n  destination = @%s\n)\nset_account_meta(@%s, \"k2\", \"%s\")\n", a, a, val),
+							AccountMetadata: map[string]map[string]string{a: {Pick(r, keys): val + "r"}}}
+					}
 				}
 				op.Ledger = "l1"
 				op.ID = fmt.Sprintf("c%d.%d", c, i)
@@ -61,6 +69,79 @@ func init() {
 		ex.PreemptP = 0.5
 		return sc, ex
 	}})
+}
+
+var reSetAccountMeta = regexp.MustCompile(`set_account_meta\(@([^,]+), "([^"]+)", "([^"]+)"\)`)
+
+// checkMetadataWritesSurvive judges the current account metadata against the REQUESTS (checkCurrentMetadata
+// judges it against the logs, which a fault upstream of the log corrupts together with the rows): every value is
+// unique to the request that wrote it; the value of an acknowledged, fault-free request is still there at the end
+// unless another request of the history wrote or deleted the same key of the same account.
+func checkMetadataWritesSurvive(r *runner, views map[string]*LedgerView) []Violation {
+	var vs []Violation
+	type slot struct{ ledger, addr, key string }
+	type write struct {
+		op  *OpResult
+		val string
+	}
+	writes := map[slot][]write{}
+	touch := map[slot]map[string]bool{}
+	note := func(or *OpResult, sl slot, val string, set bool) {
+		if touch[sl] == nil {
+			touch[sl] = map[string]bool{}
+		}
+		if or.Out.Class != "client_err" {
+			touch[sl][or.Op.ID] = true
+		}
+		if set {
+			writes[sl] = append(writes[sl], write{or, val})
+		}
+	}
+	for _, or := range r.results {
+		op := or.Op
+		switch op.Kind {
+		case KAcctMetaSet:
+			for k, v := range op.Metadata {
+				note(or, slot{op.Ledger, op.Address, k}, v, true)
+			}
+		case KAcctMetaDel:
+			note(or, slot{op.Ledger, op.Address, op.Key}, "", false)
+		case KScript, KPostings:
+			for _, m := range reSetAccountMeta.FindAllStringSubmatch(op.Script, -1) {
+				note(or, slot{op.Ledger, m[1], m[2]}, m[3], true)
+			}
+			for a, md := range op.AccountMetadata {
+				for k, v := range md {
+					note(or, slot{op.Ledger, a, k}, v, true)
+				}
+			}
+		}
+	}
+	for sl, ws := range writes {
+		for _, w := range ws {
+			if w.op.Phase != "main" || w.op.Out.Class != "ok" || len(w.op.Faults) > 0 || w.op.Op.DryRun {
+				continue
+			}
+			others := 0
+			for id := range touch[sl] {
+				if id != w.op.Op.ID {
+					others++
+				}
+			}
+			if others > 0 {
+				continue
+			}
+			got := ""
+			if v := views[sl.ledger]; v != nil && v.Accts[sl.addr] != nil {
+				got = v.Accts[sl.addr].Metadata[sl.key]
+			}
+			if got != w.val {
+				vs = append(vs, Violation{r.sc.Property, "an-acknowledged-metadata-write-is-in-the-current-metadata", fmt.Sprintf("%s (%s) was acknowledged and wrote %s=%q on account %s of %s; no other request of the history touches that key, and the account now holds %q", w.op.Op.ID, w.op.Op.Kind, sl.key, w.val, sl.addr, sl.ledger, got)})
+			}
+		}
+	}
+	sort.Slice(vs, func(i, j int) bool { return vs[i].Detail < vs[j].Detail })
+	return vs
 }
 
 // checkCurrentMetadata folds the metadata writes of the committed logs in commit order (within one commit:
